@@ -53,13 +53,24 @@ fn writer() -> VersionedChecksummedBlobWriter {
 }
 
 fn partition_roundtrips(rng: &mut Rng, out: &mut CaseOut, dir: &Path, rounds: usize) {
+    partition_roundtrips_with(rng, out, dir, rounds, &[1usize, 8, 9, 65, 300, 1500], 6)
+}
+
+/// Interpreter-lane slice of the file round trips (see props/sanlane.rs).
+pub fn tiny(rng: &mut Rng, out: &mut CaseOut, dir: &Path) {
+    partition_roundtrips_with(rng, out, dir, 1, &[1usize, 9, 33], 3);
+    catalogue_roundtrips(rng, out, 2);
+    wal_roundtrips(rng, out, 2);
+}
+
+fn partition_roundtrips_with(rng: &mut Rng, out: &mut CaseOut, dir: &Path, rounds: usize, row_choices: &[usize], ncols: usize) {
     let classes = gen::all_classes();
     let w = writer();
     for r in 0..rounds {
         let mut cols = Vec::new();
-        let rows = *rng.pick(&[1usize, 8, 9, 65, 300, 1500]);
+        let rows = *rng.pick(row_choices);
         let mut labels = Vec::new();
-        for k in 0..6 {
+        for k in 0..ncols {
             let (kind, class) = *rng.pick(&classes);
             let pat = *rng.pick(gen::NULL_PATTERNS);
             let vals = gen::apply_nulls(gen::gen_column(kind, class, rows, rng), &gen::null_pattern(pat, rows, rng));
